@@ -108,7 +108,7 @@ void adfVolumeInfo ( struct AdfVolume * const vol )
         return;
 	
     memset(diskName, 0, 35);
-    memcpy(diskName, root.diskName, root.nameLen);
+    memcpy(diskName, root.diskName, min ( root.nameLen, (uint8_t) MAXNAMELEN ) );
 	
     printf ( "\nADF volume info:\n  Name:\t\t%-30s\n", vol->volName );
     printf ("  Type:\t\t");
